@@ -27,7 +27,7 @@ def build(arg):
     comps = []
     for c in arg['comps']:
         role = getattr(Role, c['role'])
-        kw = {'attachment_level': 'O'} if role == Role.ATTRIBUTE else {}
+        kw = {'attachment_level': c.get('attach', 'O')} if role == Role.ATTRIBUTE else {}
         comps.append(Component(id=c['id'], required=c['role'] == 'DIMENSION', role=role, concept=Concept(id=c['id']), local_dtype=DataType(c['dtype']), **kw))
     components = Components(comps)
     schema = Schema(context='datastructure', agency='MD', id=arg['id'], version='1.0', components=components)
@@ -83,10 +83,20 @@ def main(chk):
         for r in ROLES:
             comps = [{'id': 'DIM_0', 'role': 'DIMENSION', 'dtype': 'String'}, {'id': 'C_1', 'role': r, 'dtype': d}]
             structs.append({'id': 'S_%s_%s' % (d, r[:3]), 'comps': comps})
+    # an attribute is one VTL component whatever it is attached to: observation, dataset, a dimension, a group of dimensions
+    for d in ('String', 'Integer', 'ObservationalTimePeriod', 'Boolean'):
+        for lv, att in (('obs', 'O'), ('dataset', 'D'), ('dim', 'DIM_0'), ('dims', 'DIM_0,DIM_1')):
+            comps = [{'id': 'DIM_0', 'role': 'DIMENSION', 'dtype': 'String'}, {'id': 'DIM_1', 'role': 'DIMENSION', 'dtype': 'Integer'}, {'id': 'OBS', 'role': 'MEASURE', 'dtype': 'Double'},
+                     {'id': 'A_1', 'role': 'ATTRIBUTE', 'dtype': d, 'attach': att}, {'id': 'A_2', 'role': 'ATTRIBUTE', 'dtype': 'String', 'attach': 'O'}]
+            structs.append({'id': 'T_%s_%s' % (d, lv), 'comps': comps})
     # sampled structures of 1-5 components (any order of roles, possibly no dimension, possibly several unmapped types)
     for k in range(60 if quick else 600):
         n = rnd.choice([1, 2, 3, 4, 5])
         comps = [{'id': 'C_%d' % j, 'role': rnd.choice(ROLES), 'dtype': rnd.choice(dtypes)} for j in range(n)]
+        dims = [c['id'] for c in comps if c['role'] == 'DIMENSION']
+        for c in comps:
+            if c['role'] == 'ATTRIBUTE':
+                c['attach'] = rnd.choice(['O', 'O', 'D'] + dims)
         structs.append({'id': 'R_%d' % k, 'comps': comps})
     path = os.path.join(engine.sub_dir('traces'), 'sdmx-%d.json' % os.getpid())
     json.dump({'structures': structs}, open(path, 'w'))
